@@ -131,6 +131,9 @@ func randomCase(r *rand.Rand, o genOpts) c16In {
 		}
 		nd.W = 10 * (5 + r.Intn(9))
 		nd.H = 10 * (3 + r.Intn(5))
+		if nd.Ov {
+			nd.OvK = pickOvKind(nd)
+		}
 		nd.ML = 5 * (r.Intn(15) - 4)
 		nd.MT = 5 * (r.Intn(11) - 9)
 		nd.Bd = pick(r, 0, 2, 2, 3, 4)
@@ -483,6 +486,9 @@ func pagedCase(r *rand.Rand, o genOpts) c16In {
 		}
 		nd.W = 10 * (5 + r.Intn(9))
 		nd.H = 10 * (3 + r.Intn(5))
+		if nd.Ov {
+			nd.OvK = pickOvKind(nd)
+		}
 		nd.ML = 5 * (r.Intn(15) - 4)
 		nd.MT = 5 * (r.Intn(11) - 9)
 		nd.Bd = pick(r, 0, 2, 2, 3, 4)
